@@ -1037,7 +1037,7 @@ func (r *run) exec(op c04Op) error {
 			r.tag("oracle_address_mismatch")
 		}
 		r.addAddress("imported_address", want)
-		r.remember(&addrRec{id: c04AddrID{Kind: "imp", N: op.ID}, scope: s, addr: want, hasPriv: !r.mgr.WatchOnly()})
+		r.remember(&addrRec{id: c04AddrID{Kind: "imp", N: impSym(op.ID, op.Comp)}, scope: s, addr: want, hasPriv: !r.mgr.WatchOnly()})
 		return nil
 	case "imppub":
 		sm, err := r.mgr.FetchScopedKeyManager(s)
@@ -1061,7 +1061,7 @@ func (r *run) exec(op c04Op) error {
 			return err
 		}
 		r.addAddress("imported_address", want)
-		r.remember(&addrRec{id: c04AddrID{Kind: "imp", N: op.ID}, scope: s, addr: want})
+		r.remember(&addrRec{id: c04AddrID{Kind: "imp", N: impSym(op.ID, true)}, scope: s, addr: want})
 		return nil
 	case "impscript":
 		return r.importScript(s, op)
@@ -1165,6 +1165,16 @@ func (r *run) exec(op c04Op) error {
 		return err
 	}
 	return fmt.Errorf("unknown op %q", op.K)
+}
+
+// impSym is the symbolic id of an imported key AS SERIALISED: the same key
+// imported compressed and uncompressed gives two different addresses (the
+// manager accepts both), so the model's id is 2*key + (1 if uncompressed).
+func impSym(id int, compressed bool) int {
+	if compressed {
+		return 2 * id
+	}
+	return 2*id + 1
 }
 
 func (r *run) findAddr(s waddrmgr.KeyScope, id *c04AddrID) *addrRec {
@@ -1691,12 +1701,12 @@ func c04Gen(r *gen.R, tier string) c04Input {
 			}
 			emit(c04Op{K: "imppriv", Scope: s, ID: id, Comp: comp})
 			if g.unlocked || g.wo {
-				g.addrs = append(g.addrs, genAddr{s, c04AddrID{Kind: "imp", N: id}})
+				g.addrs = append(g.addrs, genAddr{s, c04AddrID{Kind: "imp", N: impSym(id, comp)}})
 			}
 		case 3: // import public key
 			g.nextID++
 			emit(c04Op{K: "imppub", Scope: s, ID: g.nextID})
-			g.addrs = append(g.addrs, genAddr{s, c04AddrID{Kind: "imp", N: g.nextID}})
+			g.addrs = append(g.addrs, genAddr{s, c04AddrID{Kind: "imp", N: impSym(g.nextID, true)}})
 		case 4: // import script
 			g.nextID++
 			kind := []string{"p2sh", "wsh", "tr"}[r.Pick(3, 4, 4)]
